@@ -7,7 +7,13 @@ REPO=${1:-/repo}
 cd "$REPO" || exit 2
 export CARGO_NET_OFFLINE=true
 OUT=$(mktemp)
-cargo nextest run --workspace --no-fail-fast --tool-config-file pb:/w/lib/nextest.toml --profile pb --test-threads 8 --offline >"$OUT" 2>&1
+RUNCMD='cargo nextest run --workspace --no-fail-fast --tool-config-file pb:/w/lib/nextest.toml --profile pb --test-threads 8 --offline'
+# tests bind fixed TCP ports: use a private network namespace when available so parallel runs do not clash
+if unshare -n true 2>/dev/null; then
+  unshare -n sh -c "ip link set lo up; $RUNCMD" >"$OUT" 2>&1
+else
+  $RUNCMD >"$OUT" 2>&1
+fi
 J="$REPO/target/nextest/pb/junit.xml"
 [ -n "${CARGO_TARGET_DIR:-}" ] && J="$CARGO_TARGET_DIR/nextest/pb/junit.xml"
 python3 - "$J" "$OUT" <<'PY'
